@@ -1436,6 +1436,46 @@ func sanitizeType(t types.Type) string {
 		return "<nil_type>"
 	}
 
+	// Types built from other types are rendered part by part, so that what is done for func types
+	// (no parameter names), function-local types (what they stand for) and type parameters (their
+	// position, not their name) also holds where they sit inside a slice, map, pointer, ... type.
+	switch u := t.(type) {
+	case *types.Pointer:
+		return "*" + sanitizeType(u.Elem())
+	case *types.Slice:
+		return "[]" + sanitizeType(u.Elem())
+	case *types.Array:
+		return fmt.Sprintf("[%d]%s", u.Len(), sanitizeType(u.Elem()))
+	case *types.Map:
+		return "map[" + sanitizeType(u.Key()) + "]" + sanitizeType(u.Elem())
+	case *types.Chan:
+		elem := sanitizeType(u.Elem())
+		switch u.Dir() {
+		case types.SendOnly:
+			return "chan<- " + elem
+		case types.RecvOnly:
+			return "<-chan " + elem
+		}
+		if c, ok := u.Elem().(*types.Chan); ok && c.Dir() == types.RecvOnly {
+			elem = "(" + elem + ")"
+		}
+		return "chan " + elem
+	case *types.TypeParam:
+		return fmt.Sprintf("$T%d", u.Index())
+	case *types.Named:
+		if u.TypeArgs().Len() > 0 && u.Obj() != nil {
+			name := u.Obj().Name()
+			if q := packageQualifier(u.Obj().Pkg()); q != "" {
+				name = q + "." + name
+			}
+			var args []string
+			for i := 0; i < u.TypeArgs().Len(); i++ {
+				args = append(args, sanitizeType(u.TypeArgs().At(i)))
+			}
+			return name + "[" + strings.Join(args, ",") + "]"
+		}
+	}
+
 	var res string
 	if sig, ok := t.(*types.Signature); ok {
 		var params []string
@@ -1443,7 +1483,7 @@ func sanitizeType(t types.Type) string {
 			paramType := sig.Params().At(i).Type()
 			if sig.Variadic() && i == sig.Params().Len()-1 {
 				if slice, ok := paramType.(*types.Slice); ok {
-					elemStr := types.TypeString(slice.Elem(), packageQualifier)
+					elemStr := sanitizeType(slice.Elem())
 					params = append(params, "..."+elemStr)
 					continue
 				}
